@@ -189,10 +189,115 @@ let handle_elab rest =
   | Ok n -> "ok " ^ jnv n
   | Err e -> "err " ^ err_str e
 
+(* ---------------- document-level writer: EMIT <options> <netlist value>  ->  "ok <json>" | "err <class>" | "unsup <why>"
+   (the json: {"doc": document, "reread": VElab.elab of it, "rt": verdict of VEmit.rt_check, "writable": VEmit.writable}). Grammar:
+     options := (~ | n {name}) write_blackbox(0|1) defparam(0|1)
+     nv      := (~|top) ndefs {def}
+     def     := name lib prim(0|1) nparam {key val} attrs nports {port} ncables {cable} ninsts {inst} nnets {net} nassigns {assign}
+     label   := N name | P k
+     port    := label (~|in|out|inout) width lower
+     cable   := name width lower type attrs
+     inst    := name ref nparam {key val} attrs
+     net     := cable index neps {ep}            ep := P label bit | I inst label bit
+     assign  := n {obit obit}                    obit := ~ | B cable index   *)
+let p_nat toks = let (t, r) = need toks in (nat_of_int (int_of_string t), r)
+let p_label toks = match toks with
+  | "N" :: r -> let (n, r) = p_str r in (LName n, r)
+  | "P" :: r -> let (k, r) = p_nat r in (LPos k, r)
+  | _ -> failwith "bad label"
+let p_nvport toks =
+  let (lb, r) = p_label toks in
+  let (d, r) = need r in
+  let (w, r) = p_nat r in let (lo, r) = p_z r in
+  ({ np_label = lb; np_dir = (if d = "~" then None else Some (p_dir d)); np_width = w; np_lower = lo }, r)
+let p_nvcable toks =
+  let (n, r) = p_str toks in let (w, r) = p_nat r in let (lo, r) = p_z r in
+  let (t, r) = need r in let (a, r) = p_attrs r in
+  ({ nc_name = n; nc_width = w; nc_lower = lo; nc_type = p_ty t; nc_attrs = a }, r)
+let p_nvinst toks =
+  let (n, r) = p_str toks in let (rf, r) = p_str r in
+  let (ps, r) = take_count p_kv r in let (a, r) = p_attrs r in
+  ({ ni_name = n; ni_ref = rf; ni_params = ps; ni_attrs = a }, r)
+let p_ep toks = match toks with
+  | "P" :: r -> let (lb, r) = p_label r in let (b, r) = p_z r in (EPort (lb, b), r)
+  | "I" :: r -> let (i, r) = p_str r in let (lb, r) = p_label r in let (b, r) = p_z r in (EInst (i, lb, b), r)
+  | _ -> failwith "bad endpoint"
+let p_net toks =
+  let (c, r) = p_str toks in let (i, r) = p_z r in let (eps, r) = take_count p_ep r in (((c, i), eps), r)
+let p_obit toks = match toks with
+  | "~" :: r -> (None, r)
+  | "B" :: r -> let (c, r) = p_str r in let (i, r) = p_z r in (Some (c, i), r)
+  | _ -> failwith "bad bit"
+let p_assign toks = take_count (fun t -> let (a, t) = p_obit t in let (b, t) = p_obit t in ((a, b), t)) toks
+let p_nvdef toks =
+  let (name, r) = p_str toks in let (lib, r) = p_str r in let (prim, r) = need r in
+  let (ps, r) = take_count p_kv r in let (a, r) = p_attrs r in
+  let (ports, r) = take_count p_nvport r in
+  let (cables, r) = take_count p_nvcable r in
+  let (insts, r) = take_count p_nvinst r in
+  let (nets, r) = take_count p_net r in
+  let (assigns, r) = take_count p_assign r in
+  ({ nd_name = name; nd_lib = lib; nd_prim = (prim = "1"); nd_params = ps; nd_attrs = a; nd_ports = ports;
+     nd_cables = cables; nd_insts = insts; nd_nets = nets; nd_assigns = assigns }, r)
+let p_opts toks =
+  let (dl, r) = match toks with
+    | "~" :: r -> (None, r)
+    | _ -> let (l, r) = take_count p_str toks in (Some l, r) in
+  let (wb, r) = need r in let (dp, r) = need r in
+  ({ o_definition_list = dl; o_write_blackbox = (wb = "1"); o_defparam = (dp = "1") }, r)
+
+let jdirv = function DIn -> js "in" | DOut -> js "out" | DInout -> js "inout"
+let jrange = function None -> "null" | Some (h, l) -> jlist [jz h; jz l]
+let jatom = function
+  | DId n -> jlist [js "id"; jstr n]
+  | DBit (n, i) -> jlist [js "bit"; jstr n; jz i]
+  | DPart (n, h, l) -> jlist [js "part"; jstr n; jz h; jz l]
+  | DConst b -> jlist [js "c"; (if b then "1" else "0")]
+let jexpr = function
+  | DAtom a -> jlist [js "A"; jatom a]
+  | DCat l -> jlist [js "C"; jlist (List.map jatom l)]
+let joexpr = function None -> "null" | Some e -> jexpr e
+let jhentry = function
+  | HPort (d, rg, n) -> jlist [js "HP"; (match d with None -> "null" | Some d -> jdirv d); jrange rg; jstr n]
+  | HAlias (n, e) -> jlist [js "HA"; jstr n; jexpr e]
+let jitem = function
+  | IPortDecl (d, ty, rg, names, a) ->
+    jlist [js "PD"; jdirv d; (match ty with None -> "null" | Some t -> jty t); jrange rg; jlist (List.map jstr names); jlist (List.map jattr a)]
+  | IWire (ty, rg, names, a) -> jlist [js "W"; jty ty; jrange rg; jlist (List.map jstr names); jlist (List.map jattr a)]
+  | IInst (m, i, ps, a, c) ->
+    let (k, l) = match c with
+      | CNamed l -> ("N", List.map (fun (p, e) -> jlist [jstr p; joexpr e]) l)
+      | CPos l -> ("P", List.map joexpr l) in
+    jlist [js "I"; jstr m; jstr i; jlist (List.map jkv ps); jlist (List.map jattr a); js k; jlist l]
+  | IDefparam (i, k, v) -> jlist [js "DP"; jstr i; jstr k; jstr v]
+  | IAssign (a, b) -> jlist [js "AS"; jatom a; jatom b]
+  | IOther -> jlist [js "OT"]
+let jmodule m =
+  "{" ^ String.concat "," [
+    "\"name\":" ^ jstr m.vm_name; "\"cell\":" ^ (if m.vm_cell then "true" else "false");
+    "\"params\":" ^ jlist (List.map jkv m.vm_params); "\"attrs\":" ^ jlist (List.map jattr m.vm_attrs);
+    "\"header\":" ^ jlist (List.map jhentry m.vm_header); "\"body\":" ^ jlist (List.map jitem m.vm_body) ] ^ "}"
+let wunsup_str = function
+  | WMultiAssign -> "multi-bit-assign" | WAssignShape -> "assign-shape" | WUnnamedPort -> "unnamed-port"
+  | WName -> "name" | WValue -> "not-a-netlist-value"
+
+let handle_emit rest =
+  let (o, r) = p_opts rest in
+  let (top, r) = p_ostr r in
+  let (defs, _) = take_count p_nvdef r in
+  let n = { nv_top = top; nv_defs = defs } in
+  match emit o n with
+  | WOk d ->
+    let back = match elab d with Ok n' -> "{\"ok\":" ^ jnv n' ^ "}" | Err e -> "{\"err\":\"" ^ err_str e ^ "\"}" in
+    "ok {\"doc\":" ^ jlist (List.map jmodule d) ^ ",\"reread\":" ^ back ^ ",\"rt\":" ^ (if rt_check o n then "true" else "false") ^ ",\"writable\":" ^ (if writable o n then "true" else "false") ^ "}"
+  | WErr e -> "err " ^ err_str e
+  | WUnsup u -> "unsup " ^ wunsup_str u
+
 let handle line =
   let toks = List.filter (fun s -> s <> "") (String.split_on_char ' ' line) in
   match toks with
   | "ELAB" :: rest -> handle_elab rest
+  | "EMIT" :: rest -> handle_emit rest
   | ["GW"; lo; n; l; r] ->
     let n = int_of_string n in
     let ws = List.init n (fun i -> i) in
